@@ -678,7 +678,9 @@ pub fn built(ws: &[&str]) -> String {
             t.set_access_token(AccessToken::new(a));
             t.set_token_type(b);
             t.set_extra_fields(EmptyExtraTokenFields {});
-            let dur = c.map(std::time::Duration::from_secs);
+            // the lifetime is a whole number of seconds on the wire: a caller's Duration with a
+            // sub-second part is stored as its whole seconds (for odd second counts one is passed)
+            let dur = c.map(|s| if s % 2 == 1 { std::time::Duration::new(s, 999_999_999) } else { std::time::Duration::from_secs(s) });
             t.set_expires_in(dur.as_ref());
             t.set_refresh_token(d.map(RefreshToken::new));
             t.set_scopes(e.map(|l| l.into_iter().map(Scope::new).collect()));
